@@ -807,6 +807,173 @@ from . import realobj
 from .c14 import _rc
 
 
+# ----------------------------------------------------------------------------
+# the text parser in front of the converter
+# ----------------------------------------------------------------------------
+class _CxField:
+    """column `col` of data line k; int() / float() of it is the number written there (assumed: str <-> number inverse)"""
+    def __init__(self, owner, k, col):
+        self.owner, self.k, self.col = owner, k, col
+
+    def sym_method(self, I, name, a, kw):
+        if name == 'split' and a == [',']:
+            return _CxParts(self.owner, self.k, self.col)
+        raise Unsupported(f'CIRCexplorer field.{name}')
+
+    def sym_int(self, I):
+        return SymObj('CxNumber', kind='int', k=self.k, col=self.col, part=None)
+
+    def sym_float(self, I):
+        return SymObj('CxNumber', kind='float', k=self.k, col=self.col, part=None)
+
+    def sym_str(self, I):
+        return self
+
+
+class _CxPart:
+    def __init__(self, owner, k, col, j):
+        self.owner, self.k, self.col, self.j = owner, k, col, j
+
+    def sym_int(self, I):
+        return SymObj('CxNumber', kind='int', k=self.k, col=self.col, part=self.j)
+
+
+class _CxParts:
+    """the comma-separated parts of a column"""
+    def __init__(self, owner, k, col):
+        self.owner, self.k, self.col = owner, k, col
+
+    def sym_view(self, I):
+        n = z3.Function('cx_parts_in_column', I_, I_, I_)(self.k, z3.IntVal(self.col))
+        I.e.assume(n >= 1)
+        v = FnView(n, lambda j: _CxPart(self.owner, self.k, self.col, j if is_z3(j) else z3.IntVal(j)), tag='parts of a column')
+        v.cx = (self.k, self.col)
+        return v
+
+
+class _CxLine:
+    def __init__(self, owner, k, stripped=False):
+        self.owner, self.k, self.stripped = owner, k, stripped
+
+    def sym_method(self, I, name, a, kw):
+        if name == 'rstrip' and not a:
+            return _CxLine(self.owner, self.k, True)
+        if name == 'split' and a == ['\t']:
+            if not self.stripped:
+                raise Unsupported('the line is split with its line break still attached')
+            return [_CxField(self.owner, self.k, c) for c in range(21 if self.owner.V3 else 18)]
+        raise Unsupported(f'CIRCexplorer line.{name}')
+
+
+class _CxFile:
+    def __init__(self, owner):
+        self.owner = owner
+
+    def sym_method(self, I, name, a, kw):
+        if name == '__enter__':
+            return self
+        if name in ('__exit__', 'close'):
+            return None
+        raise Unsupported(f'file.{name}')
+
+    def sym_view(self, I):
+        st = self.owner._cur
+        zz = lambda i: i if is_z3(i) else z3.IntVal(i)
+        return FnView(st.n, lambda i: _CxLine(self.owner, zz(i)), tag='lines of the CIRCexplorer table')
+
+
+class _CircTable(Contract):
+    """CIRCexplorerParser.parse(path): every line of the table yields exactly one record, in file order, whose start, block sizes, block offsets, type,
+    isoform and read number (and the other columns) are the numbers / texts written in the columns of that line; nothing ends the loop early"""
+    path, qualname, props = CEP, 'parse', ('C17',)
+    V3 = False
+    TEXT = dict(chrom=0, name=3, strand=5, circ_type=13, gene_name=14, isoform_name=15, flank_intron=17)
+    INT = dict(start=1, end=2, thick_start=6, thick_end=7, exon_count=9, read_number=12)
+    LISTS = dict(item_rgb=8, exon_sizes=10, exon_offsets=11, index=16)
+    FLOAT = dict(score=4)
+    assumptions = ('assumed: every line of the table has the 18 (CIRCexplorer3: 21) tab-separated columns, none empty, so rstrip() removes the line break only; '
+                   'int() / float() of a column is the number written there',)
+
+    def setup(self, I):
+        e = I.e
+        st = types.SimpleNamespace(yielded=[])
+        st.n = e.int('n_lines')
+        e.assume(st.n >= 0)
+        st.args = [OpaqueStr(['table.txt']), self.V3]
+        self._cur = st
+        return st
+
+    @property
+    def models(self):
+        c = self
+
+        def inst(reg):
+            reg.ext_('open', lambda I, a, k: _CxFile(c))
+            reg.ctor_('CIRCexplorer2KnownRecord', lambda I, a, k: SymObj('CxRow17', v3=False, **k) if not a else I.raise_('TypeError', 'positional'))
+            reg.ctor_('CIRCexplorer3KnownRecord', lambda I, a, k: SymObj('CxRow17', v3=True, **k) if not a else I.raise_('TypeError', 'positional'))
+            reg.on_yield = lambda I, frame, v: c._cur.yielded.append(v)
+
+            def comp(I, node, env, view, kind):
+                from pyvc.interp import Env
+                if kind == 'list' and isinstance(view, FnView) and view.tag == 'parts of a column' and not node.generators[0].ifs:
+                    j = z3.Int('j_part')
+                    sub = Env({}, env)
+                    I.assign(node.generators[0].target, view.get(j), sub)
+                    el = I.eval(node.elt, sub)
+                    ok = isinstance(el, SymObj) and el.cls == 'CxNumber' and el.fields['kind'] == 'int' and el.fields['part'] is not None and z3.eq(el.fields['part'], j)
+                    return SymObj('CxIntList', k=view.cx[0], col=view.cx[1], elementwise=bool(ok))
+                return None
+            reg.comprehension_hooks.append(comp)
+        return (inst,)
+
+    def head(self, I, env, k):
+        self._cur.mark = len(self._cur.yielded)
+
+    def step(self, I, env, k):
+        st = self._cur
+        new = st.yielded[st.mark:]
+        if len(new) != 1 or not (isinstance(new[0], SymObj) and new[0].cls == 'CxRow17'):
+            return [('one-record-per-line', False)]
+        r = new[0]
+        same = lambda t: z3.eq(z3.simplify(t), z3.simplify(k))
+        obl = [('record-class-follows-the-format-flag', z3.BoolVal(r.fields['v3'] == self.V3))]
+        for name, col in self.TEXT.items():
+            v = r.fields.get(name)
+            obl.append((f'{name}-is-column-{col + 1}-of-this-line', z3.BoolVal(bool(isinstance(v, _CxField) and v.col == col and same(v.k)))))
+        for kind, table in (('int', self.INT), ('float', self.FLOAT if not self.V3 else dict(self.FLOAT, fpb_circ=18, fpb_linear=19, circ_score=20))):
+            for name, col in table.items():
+                v = r.fields.get(name)
+                ok = isinstance(v, SymObj) and v.cls == 'CxNumber' and v.fields['kind'] == kind and v.fields['col'] == col and v.fields['part'] is None and same(v.fields['k'])
+                obl.append((f'{name}-is-the-number-in-column-{col + 1}-of-this-line', z3.BoolVal(bool(ok))))
+        for name, col in self.LISTS.items():
+            v = r.fields.get(name)
+            ok = isinstance(v, SymObj) and v.cls == 'CxIntList' and v.fields['col'] == col and v.fields['elementwise'] and same(v.fields['k'])
+            obl.append((f'{name}-are-the-numbers-in-column-{col + 1}-of-this-line-in-order', z3.BoolVal(bool(ok))))
+        return obl
+
+    @property
+    def loops(self):
+        return {0: LoopSpec(inv=lambda I, env, k: [], on_head=self.head, step=self.step, target_after='unknown',
+                            on_break=lambda I, env, k: [('every-line-is-visited', False)],
+                            on_exit=lambda I, env, n: [('all-lines-were-visited', n == self._cur.n)])}
+
+
+@register
+class CircTableV2(_CircTable):
+    __doc__ = _CircTable.__doc__
+    V3 = False
+
+
+@register
+class CircTableV3(_CircTable):
+    __doc__ = _CircTable.__doc__
+    V3 = True
+
+    def name(self):
+        return super().name() + '[CIRCexplorer3]'
+
+
+
 class NativeCirc(NativeCheck):
     name = 'circ_records'
     props = ('C17',)
